@@ -6,8 +6,10 @@ import (
 	stded "crypto/ed25519"
 	"fmt"
 	"io"
+	"math/big"
 	"strings"
 
+	"github.com/oasisprotocol/ed25519/internal/modm"
 	ref "github.com/oasisprotocol/ed25519/internal/zzverifref"
 	rt "github.com/oasisprotocol/ed25519/internal/zzverifrt"
 )
@@ -286,6 +288,54 @@ func jobC03(c *rt.Ctx) {
 						d := hexd(t)
 						d["variant"], d["mode"], d["panic"] = vs.String(), name, fmt.Sprint(pv)
 						c.Violation("C03 "+name+" variant="+vs.v.String(), "own signature rejected by "+name, d)
+					}
+				}
+			}
+		}
+	}
+	// the scalar half as sign() computes it, S = (r + h*a) mod L, on boundary triples (h, a, r) that
+	// no seed / message can be steered to (they are hash outputs): S must equal the model's value, be
+	// canonical, and be admissible for the verifiers' range check
+	c.Require("sign-scalar-pipeline")
+	{
+		var bvals []*big.Int
+		addb := func(x *big.Int) {
+			if x.Sign() >= 0 && x.Cmp(ref.L) < 0 {
+				bvals = append(bvals, x)
+			}
+		}
+		for _, x := range []*big.Int{big.NewInt(0), big.NewInt(1), big.NewInt(2), badd(ref.L, -1), badd(ref.L, -2), new(big.Int).Rsh(ref.L, 1), badd(new(big.Int).Rsh(ref.L, 1), 1), pow2(252), badd(pow2(252), -1), a0, a1} {
+			addb(x)
+		}
+		for _, j := range []uint{30, 56, 60, 90, 112, 120, 128, 149, 150, 151, 168, 180, 210, 224, 240, 251} {
+			addb(pow2(j))
+			addb(badd(pow2(j), -1))
+			addb(new(big.Int).Sub(ref.L, pow2(j)))
+		}
+		c.Extra("pipeline_alphabet", int64(len(bvals)))
+		for hi, hv := range bvals {
+			if !c.Take() {
+				continue
+			}
+			c.Class("sign-scalar-pipeline")
+			c.Distinct(fmt.Sprintf("pipe %d", hi), true)
+			for _, av := range bvals {
+				for _, rv := range bvals {
+					var hm, am, rm, S modm.Bignum256
+					modm.Expand(&hm, ref.ToLE(hv, 32))
+					modm.Expand(&am, ref.ToLE(av, 32))
+					modm.Expand(&rm, ref.ToLE(rv, 32))
+					modm.Mul(&S, &hm, &am)
+					modm.Add(&S, &S, &rm)
+					var out [32]byte
+					modm.Contract(out[:], &S)
+					c.Step(1)
+					want := new(big.Int).Mul(hv, av)
+					want.Add(want, rv)
+					want.Mod(want, ref.L)
+					if ref.LE(out[:]).Cmp(want) != 0 || !scMinimal(out[:]) {
+						c.Violation("C03 sign-scalar-pipeline", fmt.Sprintf("S = (r + h a) mod L as sign() computes it is %x for h=%s a=%s r=%s; the canonical value is %s (a signature with this scalar half is rejected by every verifier)", out, hv, av, rv, want),
+							map[string]interface{}{"h": hv.String(), "a": av.String(), "r": rv.String(), "observed": ref.Hex(out[:]), "expected": want.String()})
 					}
 				}
 			}
